@@ -130,9 +130,185 @@ let reasm_suite () =
     done
   with End_of_file -> ())
 
+(* ---------------------------------------------------------------- suite: agent *)
+let nn s = n_of_int (int_of_string s)
+let alg_of_int = function 1 -> MD5 | 2 -> SHA256 | n -> OtherAlg (n_of_int n)
+let int_of_alg = function MD5 -> 1 | SHA256 -> 2 | OtherAlg n -> int_of_n n
+let parse_keyd s =
+  if s = "x" then KCorrupt
+  else if s.[0] = 't' then KST (nn (String.sub s 1 (String.length s - 1)))
+  else match String.split_on_char '.' (String.sub s 1 (String.length s - 1)) with
+    | [r; p; a] -> KLT (nn r, nn p, alg_of_int (int_of_string a))
+    | _ -> failwith "keyd"
+let tok_keyd = function
+  | KCorrupt -> "x" | KST p -> Printf.sprintf "t%d" (int_of_n p)
+  | KLT (r, p, a) -> Printf.sprintf "g%d.%d.%d" (int_of_n r) (int_of_n p) (int_of_alg a)
+let two r = match String.split_on_char '.' r with [a; b] -> (nn a, nn b) | _ -> failwith "two"
+let parse_attr s =
+  let r = String.sub s 1 (String.length s - 1) in
+  match s.[0] with
+  | 'a' -> let (t, g) = two r in App (t, g)
+  | 'u' -> UserName (nn r)
+  | 'h' -> let (u, x) = two r in UserHash (u, x)
+  | 'r' -> Realm (nn r)
+  | 'n' -> let (n, c) = two r in Nonce (n, c)
+  | 'L' -> PwdAlgs (if r = "" then [] else List.map (fun x -> alg_of_int (int_of_string x)) (String.split_on_char '-' r))
+  | 'l' -> PwdAlg (alg_of_int (int_of_string r))
+  | 'e' -> ErrorCode (nn r)
+  | 'm' -> AMI (parse_keyd r)
+  | 's' -> ASHA (parse_keyd r)
+  | 'f' -> AFP (r = "1")
+  | _ -> failwith ("attr token " ^ s)
+let parse_attrs s = if s = "-" then [] else List.map parse_attr (String.split_on_char ',' s)
+let tok_attr = function
+  | App (t, g) -> Printf.sprintf "a%d.%d" (int_of_n t) (int_of_n g)
+  | UserName u -> Printf.sprintf "u%d" (int_of_n u)
+  | UserHash (u, r) -> Printf.sprintf "h%d.%d" (int_of_n u) (int_of_n r)
+  | Realm r -> Printf.sprintf "r%d" (int_of_n r)
+  | Nonce (n, c) -> Printf.sprintf "n%d.%d" (int_of_n n) (int_of_n c)
+  | PwdAlgs l -> "L" ^ String.concat "-" (List.map (fun a -> string_of_int (int_of_alg a)) l)
+  | PwdAlg a -> Printf.sprintf "l%d" (int_of_alg a)
+  | ErrorCode c -> Printf.sprintf "e%d" (int_of_n c)
+  | AMI k -> "m" ^ tok_keyd k
+  | ASHA k -> "s" ^ tok_keyd k
+  | AFP g -> if g then "f1" else "f0"
+let tok_attrs l = if l = [] then "-" else String.concat "," (List.map tok_attr l)
+let class_of_int = function 0 -> CRequest | 1 -> CIndication | 2 -> CSuccess | _ -> CError
+let int_of_class = function CRequest -> 0 | CIndication -> 1 | CSuccess -> 2 | CError -> 3
+
+let render_reply = function
+  | ROk (Some id) -> Printf.sprintf "ok:%d" (int_of_n id)
+  | ROk None -> "ok" | RMaxOut -> "maxout" | RDiscarded -> "discarded" | RIgnored -> "ignored"
+  | RStunCheck -> "stuncheck" | RInternal -> "internal"
+let render_events evs =
+  let items = ref [] and tmo = ref None in
+  List.iter (function
+    | Out (id, true, p) -> items := Printf.sprintf "out:%d:1:%d:%d:%s" (int_of_n id) (int_of_class p.m_class) (int_of_n p.m_method) (tok_attrs p.m_attrs) :: !items
+    | Out (id, false, _) -> items := Printf.sprintf "out:%d:0:=" (int_of_n id) :: !items
+    | Notif (_, left) -> tmo := Some (Printf.sprintf "tmo:%d" (int_of_n left))
+    | Retry id -> items := Printf.sprintf "retry:%d" (int_of_n id) :: !items
+    | Failed (id, r) -> items := Printf.sprintf "fail:%d:%s" (int_of_n id) (match r with TimedOut -> "timeout" | ProtectionViolated -> "violated" | DoNotRetry -> "donotretry") :: !items
+    | Received m ->
+      let tys = List.map (fun a -> string_of_int (int_of_n (wire_type a))) m.m_attrs in
+      items := Printf.sprintf "recv:%d:%d:%d:%s" (int_of_class m.m_class) (int_of_n m.m_method) (int_of_n m.m_id) (if tys = [] then "-" else String.concat "," tys) :: !items) evs;
+  let l = List.sort compare !items @ (match !tmo with Some t -> [t] | None -> []) in
+  if l = [] then "-" else String.concat " " l
+let render_snapshot (c : client) =
+  let ts = List.sort compare (List.map (fun (id, x) -> (int_of_n id, match x.inst with Some _ -> 1 | None -> 0)) c.t) in
+  let hs = List.sort compare (List.map (fun ((a, d), id) -> (int_of_n id, int_of_n a, int_of_n d)) c.h) in
+  let ks = List.sort compare (List.map int_of_n c.markers) in
+  let lst f l = if l = [] then "-" else String.concat "," (List.map f l) in
+  let m = match c.mech_ with
+    | MNone -> "none"
+    | MST s -> Printf.sprintf "st:%d" (match s with None -> 0 | Some IMI -> 1 | Some ISHA -> 2)
+    | MLT s ->
+      let st = match s.lt_st with First -> 0 | Retry401 -> 1 | Retry438 -> 2 | Subsequent -> 3 in
+      (match s.lt_pr with
+       | None -> Printf.sprintf "lt:%d:-" st
+       | Some p ->
+         Printf.sprintf "lt:%d:%d.%d.%d.%s.%s.%d.%d" st (int_of_n p.p_realm) (int_of_n (fst p.p_nonce)) (int_of_n (snd p.p_nonce))
+           (match p.p_algs with None -> "-" | Some l -> "L" ^ String.concat "-" (List.map (fun a -> string_of_int (int_of_alg a)) l))
+           (match p.p_alg with None -> "-" | Some a -> string_of_int (int_of_alg a))
+           (match p.p_integ with ISHA -> 1 | IMI -> 0) (if p.p_anon then 1 else 0)) in
+  Printf.sprintf "T=%s;H=%s;K=%s;M=%s"
+    (lst (fun (i, f) -> Printf.sprintf "%d.%d" i f) ts)
+    (lst (fun (i, a, d) -> Printf.sprintf "%d.%d.%d" i a d) hs)
+    (match c.mech_ with MNone -> "-" | _ -> lst string_of_int ks) m
+
+let parse_obs (iline : string) (jline : string) (prev : string option) =
+  let f = Array.of_list (String.split_on_char ';' iline) in
+  if Array.length f <> 6 then None else begin
+    let ret = match f.(0) with
+      | "ok" -> OOk | "maxout" -> OMaxOut | "discarded" -> ODiscarded | "ignored" -> OIgnored
+      | "stuncheck" -> OStunCheck | "internal" -> OInternal | "panic" -> OPanic
+      | s when String.length s > 3 && String.sub s 0 3 = "ok:" -> OOk
+      | _ -> OOther in
+    let tmoid = List.fold_left (fun acc t ->
+        if String.length t > 6 && String.sub t 0 6 = "tmoid=" then Some (nn (String.sub t 6 (String.length t - 6))) else acc)
+        None (split_sp jline) in
+    let evs = if f.(1) = "-" then [] else List.filter_map (fun e ->
+        match String.split_on_char ':' e with
+        | "out" :: id :: "1" :: _ -> Some (EOut (nn id, true, true))
+        | ["out"; id; "0"; "="] -> Some (EOut (nn id, false, true))
+        | "out" :: id :: "0" :: _ -> Some (EOut (nn id, false, false))
+        | ["tmo"; left] -> Some (ETmo ((match tmoid with Some i -> i | None -> nn "99999"), nn left))
+        | ["retry"; id] -> Some (ERetry' (nn id))
+        | ["fail"; id; r] -> Some (EFail (nn id, (match r with "timeout" -> TimedOut | "violated" -> ProtectionViolated | _ -> DoNotRetry)))
+        | "recv" :: c :: _ :: id :: _ -> Some (ERecv (class_of_int (int_of_string c), nn id))
+        | _ -> None) (split_sp f.(1)) in
+    let body s = String.sub s 2 (String.length s - 2) in
+    let lst s = if body s = "-" then [] else String.split_on_char ',' (body s) in
+    let ts = List.map (fun x -> nn (List.hd (String.split_on_char '.' x))) (lst f.(2)) in
+    let hs = List.map (fun x -> match String.split_on_char '.' x with [i; a; d] -> ((nn i, nn a), nn d) | _ -> failwith "H entry") (lst f.(3)) in
+    let ks = List.map nn (lst f.(4)) in
+    let key = f.(2) ^ ";" ^ f.(3) ^ ";" ^ f.(5) in
+    let same = match prev with Some p -> p = key | None -> false in
+    Some ({ ob_ret = ret; ob_events = evs; ob_T = ts; ob_H = hs; ob_K = ks; ob_same = same }, key)
+  end
+
+let agent_suite () =
+  let idx = ref 0 in
+  let cl = ref None in
+  let pending = ref None in
+  let mcf = ref None in
+  let ms = ref mstate0 in
+  let prev = ref None in
+  let last_i = ref None in
+  (try
+    while true do
+      let line = input_line stdin in
+      let n = String.length line in
+      if n > 2 && line.[0] = 'H' then begin
+        match split_sp line with
+        | [_; rel; _rto; rm; rc; _gran; limit; mech; fp] ->
+          let cf = { reliable = rel = "1"; cf_rm = nn rm; cf_rc = nn rc; limit = nn limit; use_fp = fp = "1" } in
+          let m = match mech with
+            | "0" -> MNone | "1" -> MST None | "2" -> MST (Some IMI) | "3" -> MST (Some ISHA)
+            | _ -> MLT { lt_st = First; lt_pr = None } in
+          cl := Some (init cf m);
+          mcf := Some { mc_reliable = rel = "1"; mc_rm = nn rm; mc_rc = nn rc; mc_limit = nn limit };
+          ms := mstate0;
+          (* the snapshot of a fresh client *)
+          prev := Some ("T=-;H=-;" ^ (match mech with "0" -> "M=none" | "1" -> "M=st:0" | "2" -> "M=st:1" | "3" -> "M=st:2" | _ -> "M=lt:0:-"))
+        | _ -> failwith ("bad H: " ^ line)
+      end else if n > 2 && line.[0] = 'O' then begin
+        let f = Array.of_list (split_sp line) in
+        let op, mo = match f.(1) with
+          | "S" -> Send (nn f.(2), nn f.(3), nn f.(4), nn f.(5), parse_attrs f.(7), f.(6) = "1"), MSend (nn f.(2), nn f.(3), nn f.(4))
+          | "N" -> Indication (nn f.(2), nn f.(3), parse_attrs f.(5), f.(4) = "1"), MInd
+          | "R" -> Recv (nn f.(2), f.(3) = "1",
+                         { m_class = class_of_int (int_of_string f.(4)); m_method = nn f.(5); m_id = nn f.(6); m_attrs = parse_attrs f.(7) }), MRecv (nn f.(2))
+          | "T" -> Tmo (nn f.(2)), MTmo (nn f.(2))
+          | _ -> failwith ("bad O: " ^ line) in
+        pending := Some (op, mo)
+      end else if n >= 2 && line.[0] = 'I' then begin
+        match !cl, !pending with
+        | Some c, Some (op, _) ->
+          let i = !idx in incr idx;
+          let ((c', rep), evs) = step c op in
+          cl := Some c';
+          emit (Printf.sprintf "M %d %s;%s;%s" i (render_reply rep) (render_events evs) (render_snapshot c'));
+          last_i := Some (i, String.sub line 2 (n - 2))
+        | _ -> failwith "I without H/O"
+      end else if n >= 1 && line.[0] = 'J' then begin
+        match !last_i, !pending, !mcf with
+        | Some (i, il), Some (_, mo), Some c ->
+          (match parse_obs il (if n > 2 then String.sub line 2 (n - 2) else "") !prev with
+           | None -> List.iter (fun k -> emit (Printf.sprintf "S %d 0 C%02d unparsable" i k)) [3]
+           | Some (o, key) ->
+             let (s', vs) = monitor_step c !ms mo o in
+             ms := s'; prev := Some key;
+             List.iter (fun (k, v) -> emit (Printf.sprintf "S %d %d C%02d -" i (if v then 1 else 0) (int_of_n k))) vs);
+          pending := None; last_i := None
+        | _ -> ()
+      end
+    done
+  with End_of_file -> ())
+
 let () =
   (match Sys.argv with
    | [| _; "filter" |] -> filter_suite ()
    | [| _; "reasm" |] -> reasm_suite ()
+   | [| _; "agent" |] -> agent_suite ()
    | _ -> prerr_endline "usage: driver <suite> < cases"; exit 2);
   flush_out ()
